@@ -232,6 +232,9 @@ func (p *Process) getProcessStarter() func() error {
 }
 
 func (p *Process) getCommander() command.Commander {
+	if c := verifCommander(p); c != nil {
+		return c
+	}
 	if p.procConf.IsTty && !p.isMain {
 		return command.BuildPtyCommand(
 			p.procConf.Executable,
@@ -720,6 +723,7 @@ func (p *Process) setStateAndRun(state string, runnable func() error) error {
 }
 
 func (p *Process) onStateChange(state string) {
+	verifState(p, state)
 	switch state {
 	case types.ProcessStateSkipped:
 		p.setExitCode(1)
